@@ -79,7 +79,8 @@ def oracle_child(payload):
             R = RC.build_renderer(sc)
             N = sc["N"]
             sfx = sc["suffix"]
-            P = {k: jnp.asarray(v, dtype=jnp.float32) for k, v in sc["params"].items()}
+            ft = jnp.float64 if jax.config.jax_enable_x64 else jnp.float32
+            P = {k: jnp.asarray(v, dtype=ft) for k, v in sc["params"].items()}
 
             def img(params, types=None, mode=None):
                 types = types or sc["types"]
@@ -127,14 +128,14 @@ def oracle_child(payload):
                     comp = [("sersic", a), ("sersic", b)]
                 elif t == "sersic_exp":
                     a = dict(xc=g("xc"), yc=g("yc"), flux=g("flux") * g("f_1"), r_eff=g("r_eff_1"), n=g("n"), ellip=g("ellip_1"), theta=g("theta"))
-                    b = dict(xc=g("xc"), yc=g("yc"), flux=g("flux") * (1 - g("f_1")), r_eff=g("r_eff_2"), n=jnp.float32(1.0), ellip=g("ellip_2"), theta=g("theta"))
+                    b = dict(xc=g("xc"), yc=g("yc"), flux=g("flux") * (1 - g("f_1")), r_eff=g("r_eff_2"), n=jnp.asarray(1.0, dtype=ft), ellip=g("ellip_2"), theta=g("theta"))
                     comp = [("sersic", a), ("sersic", b)]
                 elif t == "sersic_pointsource":
                     a = dict(xc=g("xc"), yc=g("yc"), flux=g("flux") * (1 - g("f_ps")), r_eff=g("r_eff"), n=g("n"), ellip=g("ellip"), theta=g("theta"))
                     b = dict(xc=g("xc"), yc=g("yc"), flux=g("flux") * g("f_ps"))
                     comp = [("sersic", a), ("pointsource", b)]
                 elif t in ("exp", "dev"):
-                    a = dict(xc=g("xc"), yc=g("yc"), flux=g("flux"), r_eff=g("r_eff"), n=jnp.float32(1.0 if t == "exp" else 4.0), ellip=g("ellip"), theta=g("theta"))
+                    a = dict(xc=g("xc"), yc=g("yc"), flux=g("flux"), r_eff=g("r_eff"), n=jnp.asarray(1.0 if t == "exp" else 4.0, dtype=ft), ellip=g("ellip"), theta=g("theta"))
                     comp = [("sersic", a)]
                 if comp:
                     tot = sum(np.asarray(R.render_source(d, tt), dtype=np.float64) for tt, d in comp)
@@ -154,8 +155,8 @@ def oracle_child(payload):
                         return R.render_source(Q, sc["types"][0], suffix=sfx)
                     return R.render_for_model(Q, list(sc["types"]), sfx)
                 try:
-                    fl0 = [jnp.asarray(1.0, dtype=jnp.float32) for _ in keys]
-                    jax.linear_transpose(f, fl0)(jnp.ones((N, N), dtype=jnp.float32))
+                    fl0 = [jnp.asarray(1.0, dtype=ft) for _ in keys]
+                    jax.linear_transpose(f, fl0)(jnp.ones((N, N), dtype=ft))
                 except Exception as e:
                     res["fails"].append(("not-linear", f"program is not linear in flux: {type(e).__name__}: {str(e)[:120]}"))
         except Exception as e:
@@ -166,15 +167,19 @@ def oracle_child(payload):
 
 def oracle_run(ctx, scenes):
     ks = [-2.5, 0.5, 3.0]
-    chunks = RC.chunked(scenes, min(ctx.workers, 8))
-    res = RC.unchunk(run_children("c08", "oracle_child", [dict(scenes=ch, ks=ks) for ch in chunks], x64=False,
-                                  workers=min(ctx.workers, 8)), len(scenes))
     out = []
-    for s, r in zip(scenes, res):
-        for clause, msg in r["fails"]:
-            out.append(Violation(f"C08:{clause}:{s['kind']}:{'+'.join(sorted(set(s['types'])))}",
-                                 f"{s['kind']} renderer, {s['mode']} {s['types']}: {msg}",
-                                 dict(kind="oracle", scene=RC.ser_scene(s))))
+    # the direct-decomposition branch is only meaningful in 64-bit mode (the library warns otherwise)
+    for group, x64 in (([s for s in scenes if s["interp"]], False), ([s for s in scenes if not s["interp"]], True)):
+        if not group:
+            continue
+        chunks = RC.chunked(group, min(ctx.workers, 8))
+        res = RC.unchunk(run_children("c08", "oracle_child", [dict(scenes=ch, ks=ks) for ch in chunks], x64=x64,
+                                      workers=min(ctx.workers, 8)), len(group))
+        for s, r in zip(group, res):
+            for clause, msg in r["fails"]:
+                out.append(Violation(f"C08:{clause}:{s['kind']}:{'+'.join(sorted(set(s['types'])))}",
+                                     f"{s['kind']} renderer{'' if s['interp'] else ' (direct amplitudes, x64)'}, {s['mode']} {s['types']}: {msg}",
+                                     dict(kind="oracle", scene=RC.ser_scene(s))))
     return out
 
 
@@ -186,6 +191,14 @@ def residual(ctx):
             mode = "multi" if i % 3 == 2 else "single"
             types = None if mode == "multi" else [RC.PROFILE_TYPES[(i * 3 + N) % 7]]
             scenes.append(RC.cast32_scene(RC.gen_scene(rng, kind, N, psf, types=types, mode=mode, **opts)))
+    # the non-interpolated (direct decomposition) amplitude branch, incl. zero flux and fractions at 0 / 1
+    for kind in ("fourier", "hybrid"):
+        for t in (["sersic", "sersic_pointsource", "doublesersic"] if ctx.tier == "quick" else RC.EXTENDED):
+            sc = RC.gen_scene(rng, kind, 12, RC.asym_psf(rng, 3), types=[t], mode="single", interp=False, n_range=(0.8, 5.0), pos_styles=("frac",))
+            for k in sc["params"]:
+                if k.startswith("f_"):
+                    sc["params"][k] = float(rng.choice([0.0, 1.0]))
+            scenes.append(RC.cast32_scene(sc))
     v = oracle_run(ctx, scenes)
     return dict(name="float32 linearity identities on the real renderers", cases=len(scenes), tolerance=TOL, violations=v)
 
